@@ -23,7 +23,7 @@ import (
 // C01 — a successful sync leaves destination files byte-identical to the source.
 
 var c01Names = []string{"plain", "with space", "-dash", "*glob?[x]", "new\nline", "ünï", "\xff\xfe\x80", "--", "semi;colon$HOME`x`", strings.Repeat("L", 200)}
-var c01Dirs = []string{"", "sub/", "sub/deep/", "sub/deep/er/"}
+var c01Dirs = []string{"", "sub/", "sub/deep/", "sub/deep/er/", "n\xffn-utf8/"}
 
 const (
 	pvAbsent = iota
